@@ -36,7 +36,38 @@ def gen_space(rng, chk):
     return SearchSpace([lo, hi], pr, False), [lo, hi], pr
 
 
-def gen_history(rng, sp, n):
+def gen_edge_space(rng, chk):
+    """a space whose np.arange grid ends a rounding error away from the declared upper bound (above or below it),
+    i.e. where 'clip to the bound' and 'snap to the grid' disagree by an ulp"""
+    from black_it.search_space import SearchSpace
+
+    d = rng.choice([1, 2, 3])
+    lo, hi, pr = [], [], []
+    for _ in range(d):
+        for _try in range(200):
+            p = rng.choice([0.1, 0.05, 0.01, 0.3, 0.7, 0.15, 0.025])
+            l = rng.choice([0.0, -0.3, 1.1, 0.1, -1.0, 0.2]) * rng.choice([1, 1, 3])
+            n = rng.randint(2, 12)
+            h = round(l + n * p, 10)
+            g = np.arange(l, h + 1e-7, p)
+            if len(g) >= 2 and g[-1] != h and abs(g[-1] - h) < 1e-9:
+                break
+        lo.append(float(l)); hi.append(float(h)); pr.append(float(p))
+    chk.count("space:edge_ulp")
+    return SearchSpace([lo, hi], pr, False), [lo, hi], pr
+
+
+def gen_history(rng, sp, n, top=False):
+    if top:   # points on the last two grid values of every parameter, the best losses on the top edge
+        pts = np.zeros((n, sp.dims))
+        for j, g in enumerate(sp.param_grid):
+            pts[:, j] = [g[-1 - rng.choice([0, 0, 1])] for _ in range(n)]
+        losses = np.array([rng.random() for _ in range(n)])
+        return pts, losses
+    return _gen_history(rng, sp, n)
+
+
+def _gen_history(rng, sp, n):
     pts = np.zeros((n, sp.dims))
     for j, g in enumerate(sp.param_grid):
         pts[:, j] = [g[rng.randrange(len(g))] for _ in range(n)]
@@ -84,16 +115,19 @@ def run(chk: Check):
     chk.proof_stage(PROP_FILE)
     reqs, metas = [], []
     n_spaces = 12 if chk.tier == "quick" else 150
-    for si in range(n_spaces):
-        sp, bounds, prec = gen_space(rng, chk)
+    for si in range(n_spaces + max(4, n_spaces // 3)):
+        edge = si >= n_spaces      # targeted stream: grids that end one rounding error away from the declared bound
+        sp, bounds, prec = gen_edge_space(rng, chk) if edge else gen_space(rng, chk)
         gsets = [{f2h(v) for v in g.tolist()} for g in sp.param_grid]
         for name in NAMES:
             if name in ("GaussianProcessSampler", "CORSSampler") and sp.dims > 4 and chk.tier == "quick":
                 continue
             bs = rng.randint(1, 4)
             smp = ch.make_builtin(name, bs, ch.SMALL_OPTS.get(name), rng.randrange(10 ** 6))
-            pts, losses = gen_history(rng, sp, rng.randint(max(bs, 4), 14))
+            pts, losses = gen_history(rng, sp, rng.randint(max(bs, 4), 14), top=edge)
             ncalls = rng.randint(1, 5 if name not in ("GaussianProcessSampler", "CORSSampler") else 2)
+            if edge and name == "BestBatchSampler":
+                ncalls = 6
             for call in range(ncalls):
                 returned = []
                 orig_sb = type(smp).sample_batch
